@@ -40,19 +40,49 @@ func c01Opts(r *Run, stratum string) (PipeCfg, StreamOpts) {
 
 func runC01(r *Run, stratum string) *Violation {
 	cfg, o := c01Opts(r, stratum)
+	return runReplayCheck(r, "C01", stratum, cfg, o)
+}
+
+// C10 — filters pass exactly the configured set. No schedule axis of its own (DESIGN.md §3 C10): decided inside
+// fault-free replay runs of a filter-heavy stratum, end to end at the target log, against a direct evaluation of
+// the configured rules (own prefix match, HASH_SLOT from the cluster specification, own key-position table).
+func init() {
+	Register(&PropertyDef{ID: "C10", Strata: []string{"filters", "filters-txn", "filters-slots"}, Run: runC10, StepCap: 30000})
+}
+
+func runC10(r *Run, stratum string) *Violation {
+	g := r.Gen()
+	txn := -1
+	if stratum == "filters-txn" {
+		txn = 1
+	}
+	cfg := GenPipeCfg(g, txn, -1)
+	cfg.Filters = GenFilterSpec(g)
+	if stratum == "filters-slots" && len(cfg.Filters.SlotWhite) == 0 && len(cfg.Filters.SlotBlack) == 0 {
+		cfg.Filters.SlotWhite = [][2]int{{0, 9000}, {100, 200}, {300, 400}}
+	}
+	max := 40
+	if r.Tier == "thorough" {
+		max = 200
+	}
+	o := StreamOpts{MaxItems: max, StartDB: -1, Filters: cfg.Filters, NumDBs: 4}
+	return runReplayCheck(r, "C10", stratum, cfg, o)
+}
+
+func runReplayCheck(r *Run, prop, stratum string, cfg PipeCfg, o StreamOpts) *Violation {
 	st := GenStream(r.Gen(), o)
-	ps := NewPipeSim(r, "C01", cfg, st)
+	ps := NewPipeSim(r, prop, cfg, st)
 	expected := Reference(st, 0, cfg.DBM, cfg.Filters)
 	r.Sample = fmt.Sprintf("cfg{%s} stream{%s} expected=%d", cfg, describeStream(st, 12), len(expected))
 	r.NonTriv = len(expected) >= 2
-	r.Logf("C01 %s cfg %s items=%d expected=%d", stratum, cfg, len(st.Items), len(expected))
+	r.Logf(prop+" %s cfg %s items=%d expected=%d", stratum, cfg, len(st.Items), len(expected))
 
 	checked := 0
 	check := func() {
 		for ; checked < len(ps.biz); checked++ {
 			b := ps.biz[checked]
 			if checked >= len(expected) {
-				ps.setViolation("C01.invented", "target executed more than the stream contains", "target executed %s (db %d) beyond the %d expected commands", fmtCmd(b.Name, b.Args), b.DB, len(expected))
+				ps.setViolation(prop+".invented", "target executed more than the stream contains", "target executed %s (db %d) beyond the %d expected commands", fmtCmd(b.Name, b.Args), b.DB, len(expected))
 				return
 			}
 			e := expected[checked]
@@ -69,11 +99,11 @@ func runC01(r *Run, stratum string) *Violation {
 						break
 					}
 				}
-				ps.setViolation("C01.sequence", kind, "position %d: target executed [%s], expected [%s] (source item %d) — %s", checked, fmtCmd(b.Name, b.Args), fmtCmd(e.Name, e.Args), e.Src, kind)
+				ps.setViolation(prop+".sequence", kind, "position %d: target executed [%s], expected [%s] (source item %d) — %s", checked, fmtCmd(b.Name, b.Args), fmtCmd(e.Name, e.Args), e.Src, kind)
 				return
 			}
 			if b.DB != e.DB {
-				ps.setViolation("C01.db", "command executed in the wrong database", "position %d: [%s] executed in db %d, expected db %d (source db %d)", checked, fmtCmd(b.Name, b.Args), b.DB, e.DB, st.Items[e.Src].SrcDB)
+				ps.setViolation(prop+".db", "command executed in the wrong database", "position %d: [%s] executed in db %d, expected db %d (source db %d)", checked, fmtCmd(b.Name, b.Args), b.DB, e.DB, st.Items[e.Src].SrcDB)
 				return
 			}
 		}
@@ -89,7 +119,7 @@ func runC01(r *Run, stratum string) *Violation {
 		}
 		ph := ps.inc.getPhase()
 		if ph == 2 {
-			ps.setViolation("C01.ended", "replay ended although nothing failed", "Send/StartPoint returned during a fault-free run: spErr=%v sendErr=%v", ps.inc.spErr, ps.inc.sendErr)
+			ps.setViolation(prop+".ended", "replay ended although nothing failed", "Send/StartPoint returned during a fault-free run: spErr=%v sendErr=%v", ps.inc.spErr, ps.inc.sendErr)
 			break
 		}
 		ready := ps.srv.Ready()
@@ -108,10 +138,10 @@ func runC01(r *Run, stratum string) *Violation {
 		check()
 		if ps.viol == nil && len(ps.biz) != len(expected) {
 			e := expected[len(ps.biz)]
-			ps.setViolation("C01.dropped", "commands missing after drain", "after the whole stream was fed and a drain of 20 ticker periods the target executed %d of %d expected commands; first missing: [%s] (source item %d)", len(ps.biz), len(expected), fmtCmd(e.Name, e.Args), e.Src)
+			ps.setViolation(prop+".dropped", "commands missing after drain", "after the whole stream was fed and a drain of 20 ticker periods the target executed %d of %d expected commands; first missing: [%s] (source item %d)", len(ps.biz), len(expected), fmtCmd(e.Name, e.Args), e.Src)
 		}
 		if ps.viol == nil && ps.inc.getPhase() == 2 {
-			ps.setViolation("C01.ended", "replay ended although nothing failed", "Send returned during a fault-free run: %v", ps.inc.sendErr)
+			ps.setViolation(prop+".ended", "replay ended although nothing failed", "Send returned during a fault-free run: %v", ps.inc.sendErr)
 		}
 	}
 	ps.shutdown()
